@@ -70,3 +70,86 @@ func ZZ_C17Cursor(shape int) {
 	}
 	verifhook.Canary()
 }
+
+// zzGenFilter builds an arbitrary filter tree of the given depth; every shape choice is a
+// decision of the exploration, every leaf has its own key so that no two trees render alike.
+func zzGenFilter(path string, depth, maxArity int, leaves *int) query.Builder {
+	kinds := 5
+	if depth == 0 {
+		kinds = 2
+	}
+	k := verifhook.Choose("node"+path, kinds)
+	switch k {
+	case 0:
+		*leaves++
+		return query.Match("k"+string(rune('0'+*leaves)), "v"+path)
+	case 1:
+		*leaves++
+		return query.Lt("k"+string(rune('0'+*leaves)), "w"+path)
+	case 4:
+		return query.Not(zzGenFilter(path+"n", depth-1, maxArity, leaves))
+	case 2, 3:
+		arity := 0
+		if path == "" {
+			arity = verifhook.Choose("arity"+path, maxArity+1)
+		} else {
+			arity = verifhook.Choose("arity"+path, maxArity) + 1
+		}
+		items := make([]query.Builder, 0, arity)
+		for i := 0; i < arity; i++ {
+			items = append(items, zzGenFilter(path+string(rune('a'+i)), depth-1, maxArity, leaves))
+		}
+		if k == 2 {
+			return query.And(items...)
+		}
+		return query.Or(items...)
+	}
+	panic("unreachable")
+}
+
+func zzRender(b query.Builder) (string, []any, error) {
+	return b.Build(query.ContextFn(func(key, operator string, value any) (string, []any, error) {
+		s, _ := value.(string)
+		return key + " " + operator + " <" + s + ">", []any{value}, nil
+	}))
+}
+
+var zzC17FilterShapes = [][2]int{{0, 0}, {1, 3}, {2, 2}, {2, 3}}
+
+func ZZ_C17FilterDesc(i int) string {
+	sh := zzC17FilterShapes[i]
+	return "arbitrary filter tree of depth <= " + string(rune('0'+sh[0])) + " over {$match, $lt, $and, $or, $not}, sets of up to " + string(rune('0'+sh[1])) + " items (empty set at the top only)"
+}
+
+// ZZ_C17Filter: the filter carried inside a cursor token is the filter of the first page,
+// whatever its shape: the decoded builder renders exactly the clause the original renders.
+func ZZ_C17Filter(shape int) {
+	n := 0
+	f := zzGenFilter("", zzC17FilterShapes[shape][0], zzC17FilterShapes[shape][1], &n)
+	if c, _, err := zzRender(f); err == nil {
+		verifhook.Note(c)
+	}
+	q := NewGetTransactionsQuery(NewPaginatedQueryOptions(PITFilterWithVolumes{}).WithPageSize(uint64(verifhook.Choose("pageSize", 3) + 1)).WithQueryBuilder(f))
+	pid := verifhook.BigInt("pagination_id")
+	q.PaginationID = pid
+	token := bunpaginate.EncodeCursor(q)
+	var back GetTransactionsQuery
+	err := bunpaginate.UnmarshalCursor(token, &back)
+	verifhook.Reach("decoded")
+	verifhook.Assert(err == nil, "C17 a cursor handed out for a filtered list is not accepted back")
+	if err != nil {
+		return
+	}
+	verifhook.Assert(back.PageSize == q.PageSize, "C17 decoded cursor stands for another page size")
+	verifhook.Assert(back.PaginationID != nil && verifhook.Eq(back.PaginationID, pid), "C17 decoded cursor stands for another position")
+	verifhook.Assert(back.Options.QueryBuilder != nil, "C17 the cursor lost the filter")
+	if back.Options.QueryBuilder == nil {
+		return
+	}
+	c1, a1, e1 := zzRender(f)
+	c2, a2, e2 := zzRender(back.Options.QueryBuilder)
+	verifhook.Assert(e1 == nil && e2 == nil, "C17 filter does not render")
+	verifhook.Assert(c1 == c2, "C17 the filter decoded from the cursor is not the filter of the first page")
+	verifhook.Assert(len(a1) == len(a2), "C17 the filter decoded from the cursor binds other arguments")
+	verifhook.Canary()
+}
